@@ -456,7 +456,11 @@ static void exec_op(RunState &rs, int i) {
 		memset(res.digest, 0xEE, 32);
 		uint8_t *out = res.digest;
 		bool threw = false;
+		// x87 control word derived from the environment: precision control 24/53/64 bit, any rounding control, exceptions masked
+		static const uint16_t PC[4] = {0x0000, 0x0200, 0x0300, 0x0300};
+		const uint16_t cw = o.env >= 0 ? (uint16_t)(0x007F | PC[(env >> 13) & 3] | (((env >> 8) & 3) << 10)) : (uint16_t)0x037F;
 		seam::lib_enter(&ctx);
+		seam::set_x87cw(cw);
 		seam::set_mxcsr(env);
 		if (o.fault.empty()) {
 			if (o.kind == HASH) randomx_calculate_hash(vm, in, inlen, out);
@@ -475,8 +479,11 @@ static void exec_op(RunState &rs, int i) {
 			} catch (const std::exception &) { threw = true; }
 		}
 		uint32_t after = seam::get_mxcsr();
+		const uint16_t cw_after = seam::get_x87cw();
 		seam::set_mxcsr(0x1F80);
+		seam::set_x87cw(0x037F);
 		seam::lib_exit();
+		if (o.kind == HASH && cw_after != cw && !threw) { char d[64]; snprintf(d, sizeof d, "before=0x%04x after=0x%04x", cw, cw_after); viol("MXCSR_CHANGED", "hash changed the x87 control word vm=" + flagstr(rs.Vflags[o.v] & ~128u), d, i); }
 		if (threw) { rs.vm_tainted[o.v] = true; rs.rep->probes["hash_call_threw"]++; }
 		if (ctx.fired) rs.rep->probes["alloc_fault_in_hash_fired"]++;
 		thread_csr = (after & 0xFFC0u) | 0x1F80u; // keep control bits (rounding, FTZ, DAZ) with all exceptions masked, drop sticky flags
